@@ -207,3 +207,93 @@ pub fn find(hay: &[u8], needle: &[u8]) -> Option<usize> {
 pub fn contains(hay: &[u8], needle: &[u8]) -> bool {
     find(hay, needle).is_some()
 }
+
+// ------------------------------------------------------------------------------------------- gzip
+// "Stored" gzip only (deflate blocks of type 00): enough to plant precompressed siblings that really
+// are the gzip form of a file, and to check that a body declared as gzip decodes to that file.
+
+pub fn crc32(data: &[u8]) -> u32 {
+    let mut crc = 0xFFFF_FFFFu32;
+    for &b in data {
+        crc ^= b as u32;
+        for _ in 0..8 {
+            crc = if crc & 1 != 0 { (crc >> 1) ^ 0xEDB8_8320 } else { crc >> 1 };
+        }
+    }
+    !crc
+}
+
+pub fn gzip_stored(data: &[u8]) -> Vec<u8> {
+    let mut v = vec![0x1f, 0x8b, 0x08, 0, 0, 0, 0, 0, 0, 0x03];
+    let mut chunks: Vec<&[u8]> = data.chunks(0xFFFF).collect();
+    if chunks.is_empty() {
+        chunks.push(&[]);
+    }
+    for (i, c) in chunks.iter().enumerate() {
+        v.push(if i + 1 == chunks.len() { 1 } else { 0 });
+        let n = c.len() as u16;
+        v.extend_from_slice(&n.to_le_bytes());
+        v.extend_from_slice(&(!n).to_le_bytes());
+        v.extend_from_slice(c);
+    }
+    v.extend_from_slice(&crc32(data).to_le_bytes());
+    v.extend_from_slice(&(data.len() as u32).to_le_bytes());
+    v
+}
+
+pub enum Gunzip {
+    Ok(Vec<u8>),
+    /// not a gzip member at all (magic, method, truncated, checksum)
+    NotGzip(&'static str),
+    /// a gzip member with compressed blocks: cannot be decoded here
+    Unsupported,
+}
+
+pub fn gunzip_stored(b: &[u8]) -> Gunzip {
+    if b.len() < 18 || b[0] != 0x1f || b[1] != 0x8b {
+        return Gunzip::NotGzip("no gzip magic");
+    }
+    if b[2] != 8 {
+        return Gunzip::NotGzip("unknown compression method");
+    }
+    if b[3] != 0 {
+        return Gunzip::Unsupported;
+    }
+    let mut i = 10;
+    let mut out = vec![];
+    loop {
+        if i >= b.len() {
+            return Gunzip::NotGzip("truncated");
+        }
+        let hdr = b[i];
+        if hdr & 0b110 != 0 {
+            return Gunzip::Unsupported;
+        }
+        if i + 5 > b.len() {
+            return Gunzip::NotGzip("truncated");
+        }
+        let n = u16::from_le_bytes([b[i + 1], b[i + 2]]) as usize;
+        let nn = u16::from_le_bytes([b[i + 3], b[i + 4]]);
+        if nn != !(n as u16) {
+            return Gunzip::NotGzip("stored block length check");
+        }
+        i += 5;
+        if i + n > b.len() {
+            return Gunzip::NotGzip("truncated");
+        }
+        out.extend_from_slice(&b[i..i + n]);
+        i += n;
+        if hdr & 1 == 1 {
+            break;
+        }
+    }
+    if i + 8 > b.len() {
+        return Gunzip::NotGzip("truncated trailer");
+    }
+    let crc = u32::from_le_bytes([b[i], b[i + 1], b[i + 2], b[i + 3]]);
+    let isize = u32::from_le_bytes([b[i + 4], b[i + 5], b[i + 6], b[i + 7]]);
+    if crc != crc32(&out) || isize != out.len() as u32 {
+        return Gunzip::NotGzip("checksum or length");
+    }
+    Gunzip::Ok(out)
+}
